@@ -15,6 +15,7 @@ from vlib import core
 
 LEVEL = "exploration"
 
+STAT_LINES = {"__ambiguous", "__no_feature", "__not_aligned", "__usable", "__unassigned"}     # a FEATURE id may start with two underscores too
 STRATEGIES = ["unique_only", "with_ambiguous", "unique_splicing_consistent", "unique_inconsistent", "all"]
 
 
@@ -142,7 +143,7 @@ def l1_chunk(args):
                     got = {}
                     dup = False
                     for f, vals in rows.items():
-                        if f.startswith("__"):
+                        if f in STAT_LINES:
                             continue
                         got[f] = sum(float(v[0]) for v in vals)
                     # a feature split over both parts is printed twice (one row per chromosome) only if it lives on two
@@ -169,7 +170,7 @@ def l1_chunk(args):
                             bad.append(("zeroed-confirmed", reads, level, strategy, norm, "feature %s printed %.2f although confirmed (expected %.2f)" % (f, g, conf)))
                         elif conf > 0 and g == 0:
                             bad.append(("zeroed-confirmed", reads, level, strategy, norm, "feature %s printed 0 although a unique spliced read confirms it" % f))
-                    stats = {k: int(float(v[0][0])) for k, v in rows.items() if k.startswith("__")}
+                    stats = {k: int(float(v[0][0])) for k, v in rows.items() if k in STAT_LINES}
                     if stats.get("__ambiguous") != n_amb:
                         bad.append(("stat-ambiguous", reads, level, strategy, norm, "__ambiguous %s expected %d" % (stats.get("__ambiguous"), n_amb)))
                     if stats.get("__no_feature") != n_nof:
@@ -178,7 +179,7 @@ def l1_chunk(args):
                         bad.append(("stat-not-aligned", reads, level, strategy, norm, "__not_aligned %s expected 3" % stats.get("__not_aligned")))
                     # TPM
                     th, trows = run.parse_counts(prefix + "_tpm.tsv")
-                    tpm = {f: sum(float(v[0]) for v in vals) for f, vals in (trows or {}).items() if not f.startswith("__")}
+                    tpm = {f: sum(float(v[0]) for v in vals) for f, vals in (trows or {}).items() if not f in STAT_LINES}
                     tot = sum(got.values())
                     if norm == "simple":
                         for f in got:
@@ -250,7 +251,7 @@ def recount(out, prefix, gene_strategy, transcript_strategy, mono_isoforms, n_un
             errs.append(("table-missing", "%s counts table missing" % level))
             continue
         for f, vals in table.items():
-            if f.startswith("__"):
+            if f in STAT_LINES:
                 continue
             if len(vals) > 1:
                 errs.append(("duplicate-row", "%s table lists %s %d times" % (level, f, len(vals))))
@@ -262,8 +263,8 @@ def recount(out, prefix, gene_strategy, transcript_strategy, mono_isoforms, n_un
                 errs.append(("confirmed-zeroed", "%s %s = %.2f although a uniquely assigned spliced read supports it (sum %.2f)" % (level, f, v, s)))
         for f, s in sums.items():
             if s > 0 and f in confirmed and f not in table:
-                errs.append(("feature-missing", "%s %s missing from the table" % (level, f)))
-        stats = {k: int(float(v[0][0])) for k, v in table.items() if k.startswith("__")}
+                errs.append(("feature-missing" + (":hash-named" if f.startswith("#") else ""), "%s %s missing from the table" % (level, f)))
+        stats = {k: int(float(v[0][0])) for k, v in table.items() if k in STAT_LINES}
         if stats.get("__ambiguous") != n_amb:
             errs.append(("stat-ambiguous", "%s __ambiguous %s, read_assignments.tsv has %d such reads" % (level, stats.get("__ambiguous"), n_amb)))
         if stats.get("__no_feature") != n_nof:
@@ -293,7 +294,7 @@ def recount(out, prefix, gene_strategy, transcript_strategy, mono_isoforms, n_un
         header, table = run.parse_counts(run.find(out, prefix, ".transcript_model_counts.tsv"))
         if table is not None:
             for f, vals in table.items():
-                if f.startswith("__"):
+                if f in STAT_LINES:
                     continue
                 v = sum(float(x[0]) for x in vals)
                 if len(vals) > 1:
@@ -320,8 +321,8 @@ def tpm_errors(out, prefix, level):
     h2, t = run.parse_counts(run.find(out, prefix, ".%s_tpm.tsv" % level))
     if c is None or t is None:
         return errs
-    counts = {f: sum(float(x[0]) for x in v) for f, v in c.items() if not f.startswith("__")}
-    tpm = {f: sum(float(x[0]) for x in v) for f, v in t.items() if not f.startswith("__")}
+    counts = {f: sum(float(x[0]) for x in v) for f, v in c.items() if not f in STAT_LINES}
+    tpm = {f: sum(float(x[0]) for x in v) for f, v in t.items() if not f in STAT_LINES}
     tot = sum(counts.values())
     if tot <= 0:
         return errs
@@ -362,8 +363,8 @@ def l2_world(variant):
     add(W.exons(1000, [0, 1, 3]), chrom="chr2", strand="-")      # FSM T5
     add([[1001, 1200], [1601, 1750]], chrom="chr2", strand="-", polya=False)   # ambiguous T4/T5
     if variant >= 1:
-        # a gene and a transcript whose ids start with an underscore (the statistic lines of the tables start with two)
-        w["genes"].append(W.locus_gene("_GU", "chr2", "+", 5000, {"_TU1": [0, 1, 2]}))
+        # a gene and a transcript whose ids start with two underscores (as the statistic lines of the tables do)
+        w["genes"].append(W.locus_gene("__GU", "chr2", "+", 5000, {"__TU1": [0, 1, 2]}))
         syn.plant_for_transcripts(w)
         add(W.exons(5000, [0, 1, 2]), chrom="chr2", count=3)
         # multi-mapped reads with both alignments on ONE chromosome: primary FSM of T1 / secondary on the mono-exonic gene G3, and
@@ -377,9 +378,14 @@ def l2_world(variant):
         add([[1001, 1200], [1601, 1800]], polya=False, mapq=0)     # low MAPQ consistent
     if variant >= 2:
         # a multi-mapped read whose alignments tie: the primary one is ambiguous over T1/T3 (slots 0-1), the secondary one a full match
-        # of _TU1 on the other chromosome - one read, two loci
+        # of __TU1 on the other chromosome - one read, two loci
         reads.append(W.read_of("mmT", "chr1", [[1001, 1200], [1601, 1750]], polya=False))
         reads.append(W.read_of("mmT", "chr2", W.exons(5000, [0, 1, 2]), secondary=True))
+    if variant >= 3:
+        # a gene and a transcript whose ids start with '#' (the header lines of the tables do), on the chromosome processed second
+        w["genes"].append(W.locus_gene("#GH", "chr2", "+", 7000, {"#TH1": [[7001, 7200], [7501, 7700]]}))
+        syn.plant_for_transcripts(w)
+        add([[7001, 7200], [7501, 7700]], chrom="chr2", count=3)
     w["reads"] = reads
     W.add_sites_for_blocks(w, "chr1", W.exons(1000, [0, 1, 3, 4]), "+")
     W.dedup_sites(w)
@@ -418,7 +424,7 @@ def l2m_case(args):
     else:
         for x, n_unm in (("E1", 3), ("E2", 1)):
             try:
-                errs += [(k, "experiment %s: %s" % (x, m)) for k, m in recount(out, x, gs, ts, {"T6", "_TU1"}, n_unmapped=n_unm)]
+                errs += [(k, "experiment %s: %s" % (x, m)) for k, m in recount(out, x, gs, ts, {"T6", "__TU1"}, n_unmapped=n_unm)]
             except Exception as e:  # noqa
                 errs.append(("recount-crashed", "experiment %s: %r" % (x, e)))
     shutil.rmtree(d, ignore_errors=True)
@@ -577,7 +583,7 @@ def run(ctx):
                           {"reads": reads, "level": level, "strategy": strategy, "norm": norm})
     ctx.note("L1 counter executions: %d" % total)
     jobs = []
-    for variant in (0, 1, 2):
+    for variant in (0, 1, 2, 3):
         for gs, ts in (itertools.product(STRATEGIES, STRATEGIES) if not quick and variant < 2 else
                        [(s, s) for s in STRATEGIES] + [("unique_splicing_consistent", "unique_only")]):
             jobs.append((variant, gs, ts, "simple", (), ctx.scratch))
